@@ -173,8 +173,8 @@ def run_check(cd, tier, seed, write=True):
         if g is None:
             raise Infra('conformance graph failed: %s\n%s' % (r.error or r.violated, r.out[-2000:]))
         lim = cd.conf_limit.get(tier)
-        if tier == 'thorough' and (lim is None or lim > 20000):
-            lim = 20000                       # per conformance graph: keeps a thorough run in the ten-minute range
+        if tier == 'thorough' and (lim is None or lim > 10000):
+            lim = 10000                       # per conformance graph: keeps a thorough run in the ten-minute range
         if lim is not None:
             lim = max(200, lim // len(conf_list))
         paths, nedges = core.edge_cover(g, limit=lim, seed=seed)
@@ -222,7 +222,7 @@ def run_check(cd, tier, seed, write=True):
         for (prog, params, n, pol) in cd.programs[tier]:
             # budgets: what TLC can validate in reasonable time on 16 cores (a thorough run stays in the tens of minutes)
             if tier == 'thorough':
-                n = min(n, 15000 if pol.startswith('pb') else 5000)
+                n = min(n, 8000 if pol.startswith('pb') else 2500)
                 if label != 'plain':
                     n = max(200, n // 3)           # the sanitizer build is several times slower
             elif pol.startswith('pb'):
